@@ -600,7 +600,11 @@ fn create_doc_without_preceding_comment(
     expr::E::Literal(_, Literal::Bool(true)) => Document::Text("true"),
     expr::E::Literal(_, Literal::Int(i)) => Document::non_static_str(i.to_string()),
     expr::E::Literal(_, Literal::String(s)) => {
-      Document::concat(vec![Document::Text("\""), text_pstr(heap, *s), Document::Text("\"")])
+      Document::concat(vec![
+        Document::Text("\""),
+        Document::non_static_str(s.as_str(heap).replace('"', "\\\"")),
+        Document::Text("\""),
+      ])
     }
     expr::E::LocalId(_, id) | expr::E::ClassId(_, _, id) => text_pstr(heap, id.name),
     expr::E::Tuple(_, e) => create_doc_for_parenthesized_expression_list(heap, comment_store, e),
